@@ -499,3 +499,236 @@ func fromUint16Lengths(v ssa.Value, d int) bool {
 	}
 	return v.Type().String() == "uint16"
 }
+
+// ---------------------------------------------------------------- SSTable seek: floor vs lower bound
+
+// ruleBlockSeekInterval: block.Iterator.Seek searches the restart points (keys of every 16th entry). The entry with the
+// first key >= target lies in the interval that STARTS at the last restart point whose key is <= target. A search that finds
+// the first restart point whose key is >= target (a lower bound) must therefore look at the interval before that point
+// unless the restart key equals the target. Decided by two tables: (a) the update table of one search iteration classifies
+// the search (lower-bound / floor); (b) for a lower-bound search, the post-loop row "found restart has a key > target and is
+// not the first restart" must examine another position before it answers.
+func ruleBlockSeekInterval(c *Ctx, r *Reporter) {
+	r.Rule("seek-lands-in-the-right-interval", 1)
+	fn := c.Func("pkg/sstable/block", "Iterator", "Seek")
+	if fn == nil {
+		r.Unresolved("block.Iterator.Seek", "not found")
+		return
+	}
+	name := FnName(fn)
+	// the search loop: a loop whose header compares two integer phis (left < right) and whose body indexes restartPoints
+	var loop *GenericLoop
+	var leftPhi, rightPhi *ssa.Phi
+	for _, l := range GenericLoops(fn) {
+		iff, ok := l.Header.Instrs[len(l.Header.Instrs)-1].(*ssa.If)
+		if !ok {
+			continue
+		}
+		bo, ok := iff.Cond.(*ssa.BinOp)
+		if !ok || (bo.Op != token.LSS && bo.Op != token.LEQ) {
+			continue
+		}
+		lp, ok1 := bo.X.(*ssa.Phi)
+		rp, ok2 := bo.Y.(*ssa.Phi)
+		if ok1 && ok2 && lp.Block() == l.Header && rp.Block() == l.Header {
+			loop, leftPhi, rightPhi = l, lp, rp
+		}
+	}
+	if loop == nil {
+		r.Info(name+":search", c.FnPos(fn), "no binary search over two integer bounds found: the landing position is not decided by this rule")
+		r.OK(name+":search-shape", c.FnPos(fn), "nothing recognised to judge")
+		return
+	}
+	// the comparison of the probed key with the target inside the loop
+	var cmpCall *ssa.Call
+	for _, b := range fn.Blocks {
+		if !loop.Contains(b) {
+			continue
+		}
+		for _, ins := range b.Instrs {
+			if call, ok := ins.(*ssa.Call); ok && staticName(call) == "bytes.Compare" {
+				cmpCall = call
+			}
+		}
+	}
+	if cmpCall == nil {
+		r.Info(name+":search", c.FnPos(fn), "the search loop does not compare keys with bytes.Compare: not decided")
+		r.OK(name+":search-shape", c.FnPos(fn), "nothing recognised to judge")
+		return
+	}
+	// target as second argument? normalise the sign: probe vs target
+	sign := int64(1)
+	if _, isParam := cmpCall.Call.Args[0].(*ssa.Parameter); isParam {
+		sign = -1 // Compare(target, probe)
+	}
+	classify := func(cmp int64) (string, string) {
+		ten := int64(10)
+		sc := &Scenario{Terms: map[string]int64{}, Bools: map[string]bool{}, Vals: map[ssa.Value]int64{cmpCall: cmp * sign, leftPhi: 2, rightPhi: 6}, BoolVals: map[ssa.Value]bool{}, DefaultInt: &ten}
+		AllInstrs(fn, false, func(_ *ssa.Function, ins ssa.Instruction) {
+			if ex, ok := ins.(*ssa.Extract); ok && ex.Type().String() == "bool" {
+				sc.BoolVals[ex] = true // decode succeeded
+			}
+		})
+		res := EvalLoopIter(loop, sc)
+		if res.Err != "" || res.Reached != loop.Header {
+			return "?", "?"
+		}
+		desc := func(phi *ssa.Phi) string {
+			v := res.PhiNext(phi)
+			if v == nil || v == ssa.Value(phi) {
+				return "same"
+			}
+			// mid = (left+right)/2 ; mid+1 ; mid-1
+			if bo, ok := v.(*ssa.BinOp); ok {
+				if k, isK := constInt(bo.Y); isK && k == 1 {
+					if bo.Op == token.ADD {
+						return "mid+1"
+					}
+					if bo.Op == token.SUB {
+						return "mid-1"
+					}
+				}
+				if bo.Op == token.QUO || bo.Op == token.SHR {
+					return "mid"
+				}
+			}
+			return "other"
+		}
+		return desc(leftPhi), desc(rightPhi)
+	}
+	ltL, ltR := classify(-1) // probe < target
+	geL, geR := classify(+1) // probe > target
+	eqL, eqR := classify(0)
+	kind := "unknown"
+	switch {
+	case ltL == "mid+1" && ltR == "same" && geL == "same" && geR == "mid" && eqL == "same" && eqR == "mid":
+		kind = "lower-bound" // ends at the first restart point whose key is >= target
+	case ltL == "mid" && geR == "mid-1":
+		kind = "floor" // ends at the last restart point whose key is <= target
+	}
+	r.Notes = append(r.Notes, fmt.Sprintf("C11 block.Seek search table: probe<target → left=%s right=%s; probe>target → left=%s right=%s; probe==target → left=%s right=%s ⇒ %s", ltL, ltR, geL, geR, eqL, eqR, kind))
+	if kind == "unknown" {
+		r.Info(name+":search", c.blockPos(loop.Header), "search update table not recognised (left/right updates: <: "+ltL+"/"+ltR+", >: "+geL+"/"+geR+"): the landing position is not decided by this rule")
+		r.OK(name+":search-shape", c.FnPos(fn), "nothing recognised to judge")
+		return
+	}
+	if kind == "floor" {
+		r.OK(name+":search-shape", c.blockPos(loop.Header), "floor search: ends at the last restart point whose key is <= target; the forward scan starts in the right interval")
+		return
+	}
+	// lower-bound: post-loop row
+	var done *ssa.BasicBlock
+	for _, s := range loop.Header.Succs {
+		if !loop.Contains(s) {
+			done = s
+		}
+	}
+	if done == nil {
+		r.Undecided(name+":after-search", c.FnPos(fn), "loop exit not found")
+		return
+	}
+	ten := int64(10)
+	sc := &Scenario{Terms: map[string]int64{}, Bools: map[string]bool{}, Vals: map[ssa.Value]int64{leftPhi: 3, rightPhi: 3}, BoolVals: map[ssa.Value]bool{}, DefaultInt: &ten, MaxVisits: 3}
+	nDecodeSites := 0
+	AllInstrs(fn, false, func(_ *ssa.Function, ins ssa.Instruction) {
+		if ex, ok := ins.(*ssa.Extract); ok && ex.Type().String() == "bool" {
+			sc.BoolVals[ex] = true
+		}
+		if call, ok := ins.(*ssa.Call); ok && staticName(call) == "bytes.Compare" && !loop.Contains(call.Block()) {
+			// first comparison after the search: the restart key is greater than the target; later ones: reached
+			nDecodeSites++
+			if nDecodeSites == 1 {
+				sc.Vals[call] = 1 * sign
+			} else {
+				sc.Vals[call] = 0
+			}
+		}
+	})
+	res := EvalPath(done, loop.Header, sc, nil)
+	if res.Err != "" || res.Ret == nil {
+		r.Undecided(name+":after-search", c.blockPos(done), "post-search row not decidable: "+res.Err)
+		return
+	}
+	decodes := 0
+	for _, e := range res.Effects {
+		if e.Kind == "call" && (strings.Contains(e.What, "decodeCurrent") || strings.Contains(e.What, "decodeNext") || strings.Contains(e.What, "decode")) {
+			decodes++
+		}
+	}
+	r.Check(decodes >= 2, name+":after-lower-bound-search", c.blockPos(done),
+		"when the restart point found has a key greater than the target (and is not the first), the iterator examines the interval before it",
+		"the restart search ends at the FIRST restart point whose key is >= target, and when that key is greater than the target the iterator answers with it at once: the entries between the previous restart point and this one — among them the target, unless it sits exactly on a restart point — are never examined. A point lookup misses 15 of every 16 keys of a block, and a range scan starts too late")
+}
+
+// ruleIndexSeekAgreement: the index block holds one key per data block. The writer stores the block's FIRST key; a reader
+// that positions the index with a lower-bound seek (first index key >= target) must step back to the previous entry unless
+// the index key equals the target, because the target lies in the block that STARTS at or before it.
+func ruleIndexSeekAgreement(c *Ctx, r *Reporter) {
+	r.Rule("index-seek-agrees-with-index-key", 1)
+	// writer: which key of the block goes into the index
+	kind := "?"
+	fk := c.Field("pkg/sstable", "IndexEntry", "FirstKey")
+	for _, fn := range c.KevoFns {
+		if pkgOf(fn) != "pkg/sstable" {
+			continue
+		}
+		AllInstrs(fn, false, func(_ *ssa.Function, ins ssa.Instruction) {
+			st, ok := ins.(*ssa.Store)
+			if !ok || fk == nil || fieldVarOf(st.Addr) != fk {
+				return
+			}
+			// value: entries[0].Key (first) or entries[len-1].Key (last)
+			v := st.Val
+			if ld, ok := v.(*ssa.UnOp); ok && ld.Op == token.MUL {
+				if fa, ok := ld.X.(*ssa.FieldAddr); ok {
+					var ia *ssa.IndexAddr
+					switch el := fa.X.(type) {
+					case *ssa.UnOp:
+						ia, _ = el.X.(*ssa.IndexAddr)
+					case *ssa.IndexAddr:
+						ia = el
+					}
+					if ia != nil {
+						if k, isK := constInt(ia.Index); isK && k == 0 {
+							kind = "first"
+						} else {
+							kind = "last-or-other"
+						}
+					}
+				}
+			}
+		})
+	}
+	seek := c.Func("pkg/sstable", "Iterator", "Seek")
+	if seek == nil || fk == nil {
+		r.Unresolved("sstable.Iterator.Seek / IndexEntry.FirstKey", "not found")
+		return
+	}
+	// reader: methods called on the index iterator before the data block is loaded, on the path where the index seek succeeded
+	idxF := c.Field("pkg/sstable", "Iterator", "indexIterator")
+	var methods []string
+	AllInstrs(seek, false, func(_ *ssa.Function, ins ssa.Instruction) {
+		call, ok := ins.(*ssa.Call)
+		if !ok || call.Call.StaticCallee() == nil || len(call.Call.Args) == 0 {
+			return
+		}
+		if isLoadOfField(call.Call.Args[0], idxF) {
+			methods = append(methods, call.Call.StaticCallee().Name())
+		}
+	})
+	stepsBack := false
+	for _, m := range methods {
+		switch m {
+		case "Prev", "SeekForPrev", "SeekFloor", "SeekLE", "SeekToPrev":
+			stepsBack = true
+		}
+	}
+	cons := "sstable.Iterator.Seek~sstable.IndexEntry.FirstKey"
+	if kind != "first" {
+		r.Info(cons, c.FnPos(seek), "index key kind '"+kind+"': not judged")
+		r.OK(cons+":kind", c.FnPos(seek), "nothing recognised to judge")
+		return
+	}
+	r.Check(stepsBack, cons, c.FnPos(seek), "the index holds each block's first key and the reader positions on the last entry <= target",
+		"the index holds each block's FIRST key, and the reader positions the index with a lower-bound seek ("+strings.Join(methods, ", ")+") and loads that block: for a target that is not the first key of a block this is the block AFTER the one that contains it; the search then only moves forward. In a table with several blocks a point lookup finds only the first key of each block, and a range scan skips the tail of the block its start key lies in")
+}
